@@ -13,7 +13,8 @@ query stream over a hand-fed QueryResponse (timing free → not compared, monito
   `esrace <filterhex> <kind> <namehex|->` → Stop(); Stop(); HandleEvent on the real stream: `ok` | `panicked` | `sent`
   `esstress <filterhex> <n>`              → 4 goroutines × n HandleEvent racing one Stop(): `ok` | `panicked` | `sent-after-stop`
 end to end over the socket:
-  `e2e <filterhex> <seq> <names>`   → the user-event records up to the end marker, `seq:u:namehex:idx+…`
+  `e2e <filterhex> <seq> <names>`   → `rejected`, or the user-event / query records up to the end marker,
+                                      `seq:u|q:namehex:idx+…` (names: hex = user event, q+hex = query)
   `e2eother`                        → number of non-user records (monitor only)
   `e2eq <seq> <ms> <ack> <respond> <delay>` → records `seq:type:fromhex:payloadhex+…` (monitor only)
 
@@ -64,6 +65,19 @@ def specWanted (filter : String) (e : Ev) : Bool :=
     (if it.startsWith "user:" then e.kind == "user" && (dropPrefix it 5 == "" || dropPrefix it 5 == e.name)
      else if it.startsWith "query:" then e.kind == "query" && (dropPrefix it 6 == "" || dropPrefix it 6 == e.name)
      else it == e.kind)
+
+/-- the harness adds its end-marker filter on the side that leaves the client's leading /
+trailing characters at the edge of the string (harness/c25.go c25WrapFilter) -/
+def wrapFilter (f : String) : String :=
+  if f.startsWith " " then f ++ ",user:fin" else "user:fin," ++ f
+
+/-- the property's own reading of which filter strings are valid: every comma-separated item
+is an event type, `user:<name>` or `query:<name>` — exactly as written (no trimming, no case folding) -/
+def specValid (filter : String) : Bool :=
+  let f := if filter == "" then "*" else filter
+  (f.splitOn ",").all fun it =>
+    it.startsWith "user:" || it.startsWith "query:" ||
+    ["*", "user", "query", "member-join", "member-leave", "member-failed", "member-update", "member-reap"].contains it
 
 def isSubseq : List Ev → List Ev → Bool
   | [], _ => true
@@ -188,18 +202,28 @@ def step (s : St) (op : List String) (impl : String) : LineOut St :=
   | ["qsleep", _] => { state := s, model := some "ok" }
   | ["qend"] => { state := s, model := none, monitor := monitorQuery s.qseq impl (some s.qacks) (some s.qresps) 0 0 }
   | ["e2e", f, q, names] =>
-    match stringOfHex? f, q.toNat?, (splitNames names).mapM stringOfHex? with
-    | some fl, some sq, some ns =>
-      let fs := parseFilters (fl ++ ",user:fin")
-      let evs := (List.range ns.length).zip ns |>.map fun p => ({ kind := "user", name := p.2, id := p.1 } : Ev)
-      let expect := joinOr ((evs.filter (wanted fs)).map fun e => s!"{sq}:u:{hexOfString e.name}:{e.id}")
-      let bad := match parseRecs? impl with
-        | some rs => if rs.any (·.seq != sq) then some ("stream-seq", s!"a record does not carry the stream's seq {sq}: {impl}")
-                     else if rs.any (fun r => !specWanted (fl ++ ",user:fin") { kind := "user", name := r.name }) then
-                       some ("stream-filter", s!"a record does not match the filter: {impl}")
-                     else if rs.map (·.name) != (ns.filter fun n => specWanted (fl ++ ",user:fin") { kind := "user", name := n }) then
-                       some ("stream-missing", s!"the records are not exactly the matching events in order: {impl}")
-                     else none
+    match stringOfHex? f, q.toNat?, (splitNames names).mapM parseFired? with
+    | some fl, some sq, some fired =>
+      let full := wrapFilter fl
+      let fs := parseFilters full
+      let evs := (List.range fired.length).zip fired |>.map fun p => ({ kind := p.2.1, name := p.2.2, id := p.1 } : Ev)
+      let tag := fun (e : Ev) => if e.kind == "query" then "q" else "u"
+      let expect := if fs.all (·.valid) then joinOr ((evs.filter (wanted fs)).map fun e => s!"{sq}:{tag e}:{hexOfString e.name}:{e.id}")
+                    else "rejected"
+      -- the property, from the filter the client sent and the records on the stream only
+      let bad :=
+        if impl == "rejected" then
+          (if specValid full then some ("stream-missing", s!"a valid filter was rejected: {full}") else none)
+        else match parseRecs? impl with
+        | some rs =>
+          let recEvs := rs.map fun r => ({ kind := if r.kind == "q" then "query" else "user", name := r.name, id := r.last.toNat?.getD 0 } : Ev)
+          if !specValid full then some ("stream-filter", s!"a stream was opened for a filter that is not valid as the client sent it: '{full}'")
+          else if rs.any (·.seq != sq) then some ("stream-seq", s!"a record does not carry the stream's seq {sq}: {impl}")
+          else if recEvs.any (fun e => !specWanted full e) then
+            some ("stream-filter", s!"a record does not match the filter the client sent ('{full}'): {impl}")
+          else if recEvs != evs.filter (specWanted full) then
+            some ("stream-missing", s!"the records are not exactly the events matching '{full}' fired while the stream was open, in order: {impl}")
+          else none
         | none => if impl.startsWith "TIMEOUT" then some ("stream-missing", impl) else some ("malformed", impl)
       { state := { s with filter := fl }, model := some expect, monitor := bad }
     | _, _, _ => { state := s, model := some "bad-op" }
@@ -215,6 +239,9 @@ def step (s : St) (op : List String) (impl : String) : LineOut St :=
   | _ => { state := s, model := some "bad-op" }
 where
   splitNames (s : String) : List String := if s.isEmpty then [] else s.splitOn ","
+  parseFired? (t : String) : Option (String × String) :=
+    if t.startsWith "q" then (stringOfHex? (dropPrefix t 1)).map fun n => ("query", n)
+    else (stringOfHex? t).map fun n => ("user", n)
 
 def checker : Checker := { σ := St, init := {}, step := step }
 
